@@ -24,14 +24,31 @@ let run_case oc (cid : string) (wf : workflow) (ops : cop list) : eng option =
       let tr = e.trace in
       print_events oc cid e nstatic (drop !printed tr);
       printed := List.length tr in
+    (* C11: the store image (rows) against the live tasks at every quiescent point *)
+    let point = ref 0 in
+    let rows_check (e : eng) =
+      (match e.prow with
+       | None -> Printf.fprintf oc "case %s: RP %d missing-proc-row\n" cid !point
+       | Some s -> if s <> e.pstate then Printf.fprintf oc "case %s: RP %d state live=%s row=%s\n" cid !point (sname e.pstate) (sname s));
+      List.iteri (fun i (t : task) ->
+        match (try List.nth e.rows i with _ -> None) with
+        | None -> Printf.fprintf oc "case %s: RT %d %d missing-row live-state=%s\n" cid !point i (sname t.t_state)
+        | Some r ->
+          if r.t_state <> t.t_state then Printf.fprintf oc "case %s: RT %d %d state live=%s row=%s\n" cid !point i (sname t.t_state) (sname r.t_state);
+          if r.t_prev <> t.t_prev then Printf.fprintf oc "case %s: RT %d %d prev\n" cid !point i;
+          if canon r.t_data <> canon t.t_data then Printf.fprintf oc "case %s: RT %d %d data live=%s row=%s\n" cid !point i (canon t.t_data) (canon r.t_data);
+          if r.t_err <> t.t_err then Printf.fprintf oc "case %s: RT %d %d err\n" cid !point i;
+          if r.t_start <> t.t_start || r.t_end <> t.t_end then Printf.fprintf oc "case %s: RT %d %d times\n" cid !point i) e.tasks;
+      if List.length e.rows > List.length e.tasks then Printf.fprintf oc "case %s: RT %d ? row-without-task\n" cid !point;
+      incr point in
     let e = ref (apply_op (start ns (z_of_int clock0)) ODrain) in
-    flush !e;
+    flush !e; rows_check !e;
     List.iter (fun op ->
       (match op with
        | CAct (t, a, o) -> e := apply_op !e (OAct (nat_of_int t, a, o))
        | CTick ms -> e := apply_op !e (OTick (z_of_int ms)));
       e := apply_op !e ODrain;
-      flush !e) ops;
+      flush !e; rows_check !e) ops;
     List.iteri (fun i (t : task) -> Printf.fprintf oc "case %s: D %d %s %s%s\n" cid i (sname t.t_state) (canon t.t_data) (if t.t_evproc then " hook" else "")) (!e).tasks;
     if (!e).oof then Printf.fprintf oc "case %s: OUT-OF-FUEL\n" cid;
     Some !e
